@@ -114,6 +114,8 @@ def main(pid, tier, seed):
     n_lists = 8 if tier == 'quick' else 250
     n_cands = 0
     n_limit, n_limit_diff = [0], [0]
+    n_cli, n_cli_diff, rcopy = [0], [0], [None]
+    from . import session
     from . import lists as _lists
     specials = sorted(_lists.special_lists().items())
     for k in range(n_lists + len(specials)):
@@ -185,6 +187,39 @@ def main(pid, tier, seed):
                     second[s] = r3
                     n_limit_diff[0] += 1
             n_limit[0] += len(order2)
+        # ... and by the command line tool (password_scorer.py -i file -o file [-l cut-off]): what it writes for a string is the
+        # same probability
+        if k < (2 if tier == 'quick' else 25):
+            if rcopy[0] is None:
+                rcopy[0] = core.repo_copy('scli')
+            name = 's%d' % k
+            os.symlink(d, os.path.join(rcopy[0], 'Rules', name))
+            usable = [s for s in cands if s.strip('\r\n') == s and not s.startswith('$HEX[') and '\t' not in s
+                      and all(ord(c) >= 0x20 and c not in '\x85\u2028\u2029' for c in s)
+                      and s.encode('utf-8', 'ignore').decode('utf-8') == s]
+            inp = os.path.join(rcopy[0], 'in_%d.txt' % k)
+            outp = os.path.join(rcopy[0], 'out_%d.txt' % k)
+            with open(inp, 'wb') as f:
+                for s in usable:
+                    f.write(s.encode('utf-8') + b'\n')
+            args = ['-r', name, '-i', inp, '-o', outp] + ([] if k % 2 == 0 else ['-l', repr(lim)])
+            session.cli(rcopy[0], 'password_scorer.py', args, stdin='devnull', timeout=900)
+            got = {}
+            if os.path.exists(outp):
+                with open(outp, 'rb') as f:
+                    for ln in f.read().decode('utf-8', 'surrogateescape').split('\n'):
+                        parts = ln.rsplit('\t', 3)
+                        if len(parts) == 4:
+                            try:
+                                got[parts[0]] = (parts[0], parts[1], float(parts[2]), parts[3])
+                            except ValueError:
+                                pass
+            for s in usable:
+                r4 = got.get(s, (s, 'missing', -1.0, ''))          # a line the tool did not write: no score at all
+                n_cli[0] += 1
+                if r4[2] != first[s][2] and second[s][2] == first[s][2]:
+                    second[s] = r4
+                    n_cli_diff[0] += 1
         floats = set()
         for s in cands:
             floats.add(first[s][2])
@@ -239,7 +274,7 @@ def main(pid, tier, seed):
                    'guesser language table; non-trivial = non-zero score; candidates = training passwords, guesser output, one-edit '
                    'perturbations, unrelated strings, e-mail / website strings',
            'samples': [{'passwords': meta[s['tid']].get('passwords'), 'candidates': meta[s['tid']].get('cand_list', [])[:12]}],
-           'trainings': len(traces), 'rescored_with_a_cutoff_above_0': n_limit[0], 'of_which_differing': n_limit_diff[0], 'trace_validation': st, 'binding_selftest': selftest, 'model_checking': mc, 'states': mc['states'], 'transitions': mc['transitions'], 'exhaustive': False,
+           'trainings': len(traces), 'rescored_with_a_cutoff_above_0': n_limit[0], 'scored_again_by_the_command_line_tool': n_cli[0], 'of_which_differing_from_the_library': n_cli_diff[0], 'of_which_differing': n_limit_diff[0], 'trace_validation': st, 'binding_selftest': selftest, 'model_checking': mc, 'states': mc['states'], 'transitions': mc['transitions'], 'exhaustive': False,
            'known_findings_reproduced': n_known, 'violation_histogram': verdict.histogram()}
     core.write_evidence(pid, tier, seed, 'model_checking', cov, time.time() - t0, violations=n_viol,
                         assumptions=['TLC compares ranks; floats clustered within relative 1e-9', 'e-mail / website detection recomputed with the detectors',
